@@ -418,26 +418,16 @@ class MemOrchestrator(BaseOrchestrator):
         """
         self.release_waiters(invocation_id)
 
-        invocation = self.app.state_backend.get_invocation(invocation_id)
-        for key, value in invocation.call.serialized_arguments.items():
-            self.args_index[ArgPair(key, value)].discard(invocation_id)
-        self.status_index[self.invocation_status_record[invocation_id].status].discard(
-            invocation_id
-        )
-        self.task_id_to_inv_id.get(invocation.task.task_id, set()).discard(
-            invocation_id
-        )
-        self.call_id_to_inv_id.get(invocation.call.call_id, set()).discard(
-            invocation_id
-        )
-        self.inv_id_to_call_id.pop(invocation_id, None)
+        # Everything needed is in the orchestrator's own indexes: the state backend may
+        # have been purged already (SQLite deletes by invocation id as well)
+        if call_id := self.inv_id_to_call_id.pop(invocation_id, None):
+            self.call_id_to_inv_id.get(call_id, set()).discard(invocation_id)
+            self.task_id_to_inv_id.get(call_id.task_id, set()).discard(invocation_id)
         if args := self.invocation_args.pop(invocation_id, None):
             for arg in args:
                 self.args_index[arg].discard(invocation_id)
-        self.status_index[self.invocation_status_record[invocation_id].status].discard(
-            invocation_id
-        )
-        self.invocation_status_record.pop(invocation_id, None)
+        if record := self.invocation_status_record.pop(invocation_id, None):
+            self.status_index[record.status].discard(invocation_id)
         self.invocation_retries.pop(invocation_id, None)
 
     def _get_invocation_lock(self, invocation_id: "InvocationId") -> threading.Lock:
@@ -490,7 +480,9 @@ class MemOrchestrator(BaseOrchestrator):
         invocation: "DistributedInvocation[Params, Result]",
     ) -> None:
         for key, value in invocation.call.serialized_arguments.items():
-            self.args_index[ArgPair(key, value)].add(invocation.invocation_id)
+            pair = ArgPair(key, value)
+            self.args_index[pair].add(invocation.invocation_id)
+            self.invocation_args[invocation.invocation_id].add(pair)
 
     def get_invocation_status_record(
         self, invocation_id: "InvocationId"
